@@ -3,9 +3,9 @@ SPECIFICATION Spec
 CONSTANTS
   Apex <- AP
   Owners <- Owners2
-  InitZones <- MC_AllZones
+  InitZones <- MC_SomeZones
   InitSers <- MC_OneSer
-  Msgs <- MC_MsgsAll
+  Msgs <- MC_MsgsQuick
   MaxMsgs = 1
 INVARIANTS TypeOK C12_AllOrNothing C12_Contents C12_PrereqOnCurrentZone C12_OneSOA C12_ApexNS C12_CnameAlone C12_SerialIffChanged C12_PseudoProseAgree
 CHECK_DEADLOCK FALSE
